@@ -22,6 +22,9 @@ type c08Est struct {
 	DBeforeListener int `json:"d_before_listener"`
 	DServerAccepted int `json:"d_server_accepted"`
 	DKnockReceived  int `json:"d_knock_received"`
+	// in-process mode: the accepting side calls Accept and starts serving the listener only this much
+	// later (its own grpc.Server instead of AcceptAndServe); 0 = AcceptAndServe
+	ServeDelayMs int `json:"serve_delay_ms,omitempty"`
 }
 
 type c08Case struct {
@@ -51,6 +54,9 @@ func c08GenEsts(t *rapid.T, maxK int, perEstDelays bool) []c08Est {
 			e.DKnockReceived = oneOf(t, "d3", c08Delays)
 		} else {
 			e.DBeforeListener, e.DServerAccepted, e.DKnockReceived = ests[0].DBeforeListener, ests[0].DServerAccepted, ests[0].DKnockReceived
+		}
+		if perEstDelays && pct(t, "slowserve", 25) {
+			e.ServeDelayMs = oneOf(t, "servedelay", []int{1, 300, 1100, 1500, 2500})
 		}
 		ests = append(ests, e)
 	}
@@ -104,14 +110,19 @@ func c08RunSequential(out *Outcome, host *localEnd, plug brokerEnd, ping func() 
 		if e.DialFirst {
 			at, dt = e.GapMs, 0
 		}
-		acc.accept(id, time.Duration(at)*time.Millisecond)
+		if le, ok := acc.(*localEnd); ok && e.ServeDelayMs > 0 {
+			le.acceptSlow(id, time.Duration(at)*time.Millisecond, time.Duration(e.ServeDelayMs)*time.Millisecond)
+			out.label("slow-serve")
+		} else {
+			acc.accept(id, time.Duration(at)*time.Millisecond)
+		}
 		var tag Tag
 		var err error
 		if _, ok := within(40*time.Second, func() { tag, err = dia.dial(id, time.Duration(dt)*time.Millisecond) }); !ok {
 			out.Slow = fmt.Sprintf("establishment %d did not finish within 40 s", id)
 			return
 		}
-		desc := fmt.Sprintf("establishment %d of %d (%s accepts, dial-first=%v, gap %d ms, delays beforeListener=%d serverAccepted=%d knockReceived=%d ms)", id, len(ests), wantSide, e.DialFirst, e.GapMs, e.DBeforeListener, e.DServerAccepted, e.DKnockReceived)
+		desc := fmt.Sprintf("establishment %d of %d (%s accepts, dial-first=%v, gap %d ms, serve delay %d ms, delays beforeListener=%d serverAccepted=%d knockReceived=%d ms)", id, len(ests), wantSide, e.DialFirst, e.GapMs, e.ServeDelayMs, e.DBeforeListener, e.DServerAccepted, e.DKnockReceived)
 		if err != nil {
 			if isTimeoutErr(err) {
 				out.Slow = desc + ": " + err.Error()
